@@ -101,6 +101,7 @@ type sched struct {
 	onces   map[*sync.Once]*onceState
 	conds   map[*sync.Cond]*condState
 	closed  map[uintptr]bool
+	keep    []interface{}
 	rvs     map[uintptr]*rendezvous
 	chans   map[uintptr]drainer
 	pools   map[*sync.Pool][]interface{}
